@@ -6,8 +6,10 @@ produced.  Started by the C07 check as
 NON-INTERFERENCE RULE: within the history the harness never resets anything graphtage mutated.  The simulated
 streams are installed once, before graphtage is imported, and never re-installed; each call's output is the slice of
 the record between two marks; logging handlers, mimetypes, DEFAULT_PRINTER and whatever sys.stdout has become are
-left alone.  The only accommodation is SimStream.close() being a no-op, because main() closes its stdout.
+left alone.  The only accommodation is SimStream.close() being a no-op (and its descriptor being re-opened if a call
+closed that), because main() closes its stdout.
 """
+import gc
 import json
 import os
 import sys
@@ -36,6 +38,13 @@ def main(argv):
     results = []
     for ei, entry in enumerate(spec["history"]):
         SEAMS.clock.configure(entry.get("clock", "frozen"))
+        # same accommodation as the no-op close(): a call that closed the *descriptor* behind the simulated stream
+        # (a real process ends there) gets it back; nothing else is touched
+        # (unreachable file objects of earlier calls that still own that descriptor number are finalised first, so
+        #  that none of them closes it in the middle of a later call)
+        gc.collect()
+        SEAMS.out.renew()
+        SEAMS.err.renew()
         mo = SEAMS.out.mark()
         rec = {"i": ei, "kind": entry["kind"], "item": entry.get("item")}
         try:
@@ -75,19 +84,16 @@ def main(argv):
     return 0
 
 
-class _Stdin:
-    def __init__(self, data):
-        import io
-        self.buffer = io.BytesIO(data)
-
-    def read(self, *a):
-        return self.buffer.read(*a).decode("utf-8")
-
-    def isatty(self):
-        return False
-
-    def fileno(self):
-        return 0
+def _Stdin(data):
+    """A real standard input for this child: descriptor 0 is pointed at a private in-memory file holding `data`, and
+    sys.stdin is an ordinary text wrapper over it (readable, iterable, .buffer, a true fileno())."""
+    import io
+    fd = os.memfd_create("gsim-stdin")
+    os.write(fd, data)
+    os.lseek(fd, 0, os.SEEK_SET)
+    os.dup2(fd, 0)
+    os.close(fd)
+    return io.TextIOWrapper(io.BufferedReader(io.FileIO(0, closefd=False)), encoding="utf-8")
 
 
 class _Sink:
